@@ -29,14 +29,21 @@ def is_sched_obligation(name):
 
 
 def run(ctx, module, weights, tags, n_quick=250, len_quick=60, n_thorough=4000, len_thorough=200, extra_histories=None,
-        release_too=False, lean_extra=(), shape=True):
-    ctx.assumptions = list(ASSUME)
-    if shape:
+        release_too=False, lean_extra=(), shape=True, lean=True, cov_key=None):
+    """lean=False / cov_key=...: used as a *secondary* pass by checks whose main body is elsewhere
+    (C05: dealloc layouts along histories)"""
+    if lean:
+        ctx.assumptions = list(ASSUME)
+    else:
+        ctx.assumptions = list(ctx.assumptions) + ASSUME[:2]
+    ok, out = True, ""
+    if shape and lean:
         facts = common.regen_facts(ctx)
         a = facts.get("atomics", {})
         ctx.coverage.setdefault("generated_facts", {}).update({k: a.get(k) for k in ("dropSkeleton", "decGuard", "isUniqueGuard", "unknownWrites", "funnels")})
         lean_extra = list(lean_extra) + [SHAPE]
-    ok, out = common.lean_obligations(ctx, module, lean_extra)
+    if lean:
+        ok, out = common.lean_obligations(ctx, module, lean_extra)
     exe, bout = common.cargo_build_bin(ctx, "hist")
     if exe is None:
         # the crate under test does not build with the harness: that is a machinery failure only if
@@ -73,7 +80,8 @@ def run(ctx, module, weights, tags, n_quick=250, len_quick=60, n_thorough=4000, 
             (mine if set(props) & set(tags) else other).append((nm, ex, hi, k, props, msg))
     ctx.oblige("monitor:%s-on-impl-traces" % ctx.prop, not mine, "%d monitor failures" % len(mine))
     r0 = res
-    ctx.coverage.update({
+    cov = {}
+    cov.update({
         "evaluations": sum(r.ops for _, _, r in results),
         "histories": sum(r.histories for _, _, r in results),
         "distinct_nontrivial": r0.nontrivial,
@@ -92,6 +100,11 @@ def run(ctx, module, weights, tags, n_quick=250, len_quick=60, n_thorough=4000, 
         "monitor_failures_other_properties": len(other),
         "traces_validated_against_impl": sum(r.histories for _, _, r in results),
     })
+    if cov_key:
+        ctx.coverage[cov_key] = cov
+        ctx.coverage["evaluations"] = ctx.coverage.get("evaluations", 0) + cov["evaluations"]
+    else:
+        ctx.coverage.update(cov)
     if not ctx.failed_obligations():
         return
     hist_failed = [n for n in ctx.failed_obligations() if not is_sched_obligation(n) and not n.startswith("miri:")]
@@ -137,7 +150,7 @@ def run(ctx, module, weights, tags, n_quick=250, len_quick=60, n_thorough=4000, 
                  "first disagreement, shrunk; no monitor of %s fails on the implementation's trace (monitors of other properties that fail: %s):" % (
                      ctx.prop, sorted({p for _, _, _, _, ps, _ in other for p in ps})), "", text, ""]
         body += ["OP " + o for o in small]
-    ctx.violation("theorem", "\n".join(body), False)
+    ctx.defer_nfi("\n".join(body))
 
 
 def shape_search(ctx, failed, lean_out):
@@ -158,8 +171,8 @@ def shape_search(ctx, failed, lean_out):
         body += ["failing input: Miri litmus program `%s` with -Zmiri-seed=%d:" % (r["program"], r["seed"]), "  replay: " + r["cmd"], r["report"]]
         ctx.violation("miri", "\n".join(body), True)
     else:
-        body += ["search: %d Miri litmus runs (%s) found no failing schedule; the sequential correspondence agrees" % (len(res), prop), lean_out[-2000:]]
-        ctx.violation("theorem", "\n".join(body), False)
+        body += ["search: %d Miri litmus runs (%s) found no failing schedule" % (len(res), prop), lean_out[-2000:]]
+        ctx.defer_nfi("\n".join(body))
 
 
 def save_corpus(ctx, ops):
